@@ -38,12 +38,19 @@ Proof.
   - intros H. destruct (zz_eq a b) eqn:E; auto. apply zz_eq_true in E. contradiction.
 Qed.
 
-Lemma norm_layout_2d h w g ya :
-  norm_layout [h; w] g ya = if zz_eq g (h, w) then Ok (L2d, (1, h, w)) else Err (EAssert 124).
-Proof. reflexivity. Qed.
+Lemma norm_layout_2d_ok h w ya : ya <> Some 1 -> norm_layout [h; w] (h, w) ya = Ok (L2d, (1, h, w)).
+Proof.
+  intros Hya. simpl. rewrite (proj2 (zz_eq_true (h, w) (h, w)) eq_refl).
+  destruct ya as [v|]; [|reflexivity]. destruct (v =? 1) eqn:E; [|reflexivity].
+  apply Z.eqb_eq in E. subst. congruence.
+Qed.
 
-Lemma norm_layout_2d_ok h w ya : norm_layout [h; w] (h, w) ya = Ok (L2d, (1, h, w)).
+(** dims ordered (x, y): the array has shape (w, h) and is transposed *)
+Lemma norm_layout_2d_xy h w : norm_layout [w; h] (h, w) (Some 1) = Ok (L2dT, (1, h, w)).
 Proof. simpl. rewrite (proj2 (zz_eq_true (h, w) (h, w)) eq_refl). reflexivity. Qed.
+
+Lemma src_index_2d_xy h w b y x : src_index L2dT (1, h, w) b y x = ravel [w; h] [x; y].
+Proof. rewrite ravel_2. reflexivity. Qed.
 
 (** band-last array (H, W, B) with the shape-based guess *)
 Lemma norm_layout_band_last_guess h w nb :
@@ -71,7 +78,8 @@ Proof. simpl. rewrite (proj2 (zz_eq_true (h, w) (h, w)) eq_refl). reflexivity. Q
 (** complete characterisation of the outcome *)
 Lemma norm_layout_cases shape g ya :
   match norm_layout shape g ya with
-  | Ok (L2d, dims) => exists h w, shape = [h; w] /\ g = (h, w) /\ dims = (1, h, w)
+  | Ok (L2d, dims) => exists h w, shape = [h; w] /\ g = (h, w) /\ dims = (1, h, w) /\ ya <> Some 1
+  | Ok (L2dT, dims) => exists h w, shape = [w; h] /\ g = (h, w) /\ dims = (1, h, w) /\ ya = Some 1
   | Ok (LBandLast, dims) =>
       exists h w nb, shape = [h; w; nb] /\ g = (h, w) /\ dims = (nb, h, w) /\ (ya = None \/ ya = Some 0)
   | Ok (LBandFirst, dims) =>
@@ -82,15 +90,24 @@ Lemma norm_layout_cases shape g ya :
       exists d0 d1 d2, shape = [d0; d1; d2] /\ g <> (d1, d2) /\
                        (ya = None /\ g <> (d0, d1) \/ exists v, ya = Some v /\ v <> 0)
   | Err (EAssert _) =>
-      (exists h w, shape = [h; w] /\ g <> (h, w)) \/
+      (exists d0 d1, shape = [d0; d1] /\ (ya <> Some 1 /\ g <> (d0, d1) \/ ya = Some 1 /\ g <> (d1, d0))) \/
       (exists d0 d1 d2, shape = [d0; d1; d2] /\ ya = Some 0 /\ g <> (d0, d1))
   | Err _ => False
   end.
 Proof.
   destruct shape as [|d0 [|d1 [|d2 [|d3 r]]]]; simpl; try (left; split; discriminate).
-  - destruct (zz_eq g (d0, d1)) eqn:E.
-    + apply zz_eq_true in E. exists d0, d1. auto.
-    + apply zz_eq_false in E. left. exists d0, d1. auto.
+  - assert (Hxy : (match ya with Some v => v =? 1 | None => false end = true /\ ya = Some 1) \/
+                  (match ya with Some v => v =? 1 | None => false end = false /\ ya <> Some 1)).
+    { destruct ya as [v|]; [|right; split; [reflexivity | discriminate]].
+      destruct (v =? 1) eqn:E; [apply Z.eqb_eq in E; subst; left; auto|].
+      apply Z.eqb_neq in E. right. split; [reflexivity | congruence]. }
+    destruct Hxy as [(-> & Hya) | (-> & Hya)].
+    + destruct (zz_eq g (d1, d0)) eqn:E.
+      * apply zz_eq_true in E. exists d1, d0. auto.
+      * apply zz_eq_false in E. left. exists d0, d1. auto.
+    + destruct (zz_eq g (d0, d1)) eqn:E.
+      * apply zz_eq_true in E. exists d0, d1. auto.
+      * apply zz_eq_false in E. left. exists d0, d1. auto.
   - destruct ya as [v|].
     + destruct (v =? 0) eqn:Ev.
       * apply Z.eqb_eq in Ev; subst v. destruct (zz_eq g (d0, d1)) eqn:E.
@@ -116,13 +133,14 @@ Definition sample_in_range (dims : Z * Z * Z) (b y x : Z) : Prop :=
   let '(nb, h, w) := dims in 0 <= b < nb /\ 0 <= y < h /\ 0 <= x < w.
 
 Definition layout_dims_ok (l : layout) (dims : Z * Z * Z) : Prop :=
-  let '(nb, h, w) := dims in match l with L2d => nb = 1 | _ => True end.
+  let '(nb, h, w) := dims in match l with L2d | L2dT => nb = 1 | _ => True end.
 
 Lemma src_index_bound l nb h w b y x :
   layout_dims_ok l (nb, h, w) -> sample_in_range (nb, h, w) b y x ->
   0 <= src_index l (nb, h, w) b y x < nb * h * w.
 Proof.
   unfold sample_in_range, layout_dims_ok, src_index. intros Hl (Hb & Hy & Hx). destruct l.
+  - subst nb. nia.
   - subst nb. nia.
   - pose proof (flat_arith_bound nb h w b y x Hb Hy Hx). nia.
   - pose proof (flat_arith_bound h w nb y x b Hy Hx Hb). nia.
@@ -140,6 +158,12 @@ Proof.
     destruct (flat_arith_inv h w 0 y' x' ltac:(lia) Hy' Hx') as (_ & B2 & C2).
     cbn zeta in *. replace (0 * (h * w) + y * w + x) with (y * w + x) in * by ring.
     replace (0 * (h * w) + y' * w + x') with (y' * w + x') in * by ring.
+    rewrite E in *. congruence.
+  - subst nb. assert (b = 0) by lia. assert (b' = 0) by lia. subst.
+    destruct (flat_arith_inv w h 0 x y ltac:(lia) Hx Hy) as (_ & B1 & C1).
+    destruct (flat_arith_inv w h 0 x' y' ltac:(lia) Hx' Hy') as (_ & B2 & C2).
+    cbn zeta in *. replace (0 * (w * h) + x * h + y) with (x * h + y) in * by ring.
+    replace (0 * (w * h) + x' * h + y') with (x' * h + y') in * by ring.
     rewrite E in *. congruence.
   - destruct (flat_arith_inv h w b y x ltac:(lia) Hy Hx) as (A1 & B1 & C1).
     destruct (flat_arith_inv h w b' y' x' ltac:(lia) Hy' Hx') as (A2 & B2 & C2).
@@ -167,6 +191,10 @@ Proof.
     destruct (unflat_arith 1 h w t ltac:(lia) Hh Hw) as (A & B & C & D). cbn zeta in *.
     exists 0, ((t / w) mod h), (t mod w). repeat split; try lia.
     all: try (assert (t / (h * w) = 0) by lia; nia).
+  - subst nb. pose proof Ph as Hh. pose proof Pw as Hw.
+    destruct (unflat_arith 1 w h t ltac:(nia) Hw Hh) as (A & B & C & D). cbn zeta in *.
+    exists 0, (t mod h), ((t / h) mod w). repeat split; try lia.
+    all: try (assert (t / (w * h) = 0) by lia; nia).
   - pose proof Ph as Hh. pose proof Pw as Hw.
     destruct (unflat_arith nb h w t Ht Hh Hw) as (A & B & C & D). cbn zeta in *.
     exists (t / (h * w)), ((t / w) mod h), (t mod w). repeat split; try lia.
@@ -229,7 +257,8 @@ Lemma norm_layout_dims_ok shape g ya l dims :
 Proof.
   intros E. pose proof (norm_layout_cases shape g ya) as C. rewrite E in C.
   destruct l; destruct dims as [[nb h] w]; simpl; auto.
-  destruct C as (h' & w' & _ & _ & D). inversion D; reflexivity.
+  - destruct C as (h' & w' & _ & _ & D & _). inversion D; reflexivity.
+  - destruct C as (h' & w' & _ & _ & D & _). inversion D; reflexivity.
 Qed.
 
 (** * 4. block sizes and overview levels *)
@@ -368,9 +397,14 @@ Proof. reflexivity. Qed.
 
 (** * 6. statements used verbatim by Props/C15.v *)
 Lemma layout_2d_thm h w ya b y x :
-  norm_layout [h; w] (h, w) ya = Ok (L2d, (1, h, w)) /\
+  (ya <> Some 1 -> norm_layout [h; w] (h, w) ya = Ok (L2d, (1, h, w))) /\
   src_index L2d (1, h, w) b y x = ravel [h; w] [y; x].
 Proof. split; [apply norm_layout_2d_ok | apply src_index_2d]. Qed.
+
+Lemma layout_2d_xy_thm h w b y x :
+  norm_layout [w; h] (h, w) (Some 1) = Ok (L2dT, (1, h, w)) /\
+  src_index L2dT (1, h, w) b y x = ravel [w; h] [x; y].
+Proof. split; [apply norm_layout_2d_xy | apply src_index_2d_xy]. Qed.
 
 Lemma layout_band_last_thm h w nb b y x :
   norm_layout [h; w; nb] (h, w) None = Ok (LBandLast, (nb, h, w)) /\
